@@ -37,6 +37,15 @@ def is_nested_single(shape):
     return re.fullmatch(r"A\(A\([^,()]+\)\)", shape) is not None
 
 
+OBJ_FIELDS = re.compile(r";(?:ko|hpo|rko|st)=[^;]*")
+
+
+def strip_obj(obs):
+    """Drop the fields of mode O that only the model of the CODE predicts (identities of the key objects
+    handed out, the bookkeeping itself); the ordered-map specification is silent about them."""
+    return OBJ_FIELDS.sub("", obs)
+
+
 def split_lm(obs):
     """Take the lm= field (what the range macro bound) out of an observation."""
     m = re.search(r";lm=([^;]*)", obs)
@@ -119,6 +128,9 @@ def main(argv):
                 u = uni.get(toks[1], {"nested": set(), "header": ""})
                 ops = toks[2:]
                 # the key variable of the range macro is compared separately (lm field)
+                impl_full, model_full = impl, model
+                if toks[0] == "O":
+                    impl, model = strip_obj(impl), strip_obj(model)
                 impl0, impl_lm = split_lm(impl)
                 model0, model_lm = split_lm(model)
                 spec0, spec_lm = split_lm(spec)
@@ -126,8 +138,8 @@ def main(argv):
                 if lm_stale:
                     impl_lm = spec_lm          # judged below as a listed finding
                 if impl0 == spec0 and impl_lm == spec_lm:
-                    if impl0 != model0 or model_lm != spec_lm:
-                        corr_fail.append({"input": inp, "implementation": impl, "model": model, "specification": spec})
+                    if impl0 != model0 or model_lm != spec_lm or (toks[0] == "O" and impl_full != model_full):
+                        corr_fail.append({"universe_header": u["header"], "input": inp, "implementation": impl_full, "model": model_full, "specification": spec})
                     elif lm_stale:
                         if c.known_finding("range-macro-stale-key", inp):
                             known["range-macro-stale-key"] = known.get("range-macro-stale-key", 0) + 1
@@ -146,7 +158,7 @@ def main(argv):
                 raw_lm = split_lm(impl)[1]
                 lm_stale_m = raw_lm is not None and raw_lm != model_lm and stale_key_pattern(raw_lm, model_lm)
                 predicted = impl0 == model0 and (raw_lm == model_lm or lm_stale_m)
-                sets = {int(o[1:].split("=")[0]) for o in ops if o[0] == "s"}
+                sets = {int(re.match(r"\d+", o[1:]).group()) for o in ops if o[0] == "s"}
                 nested_read_only = False
                 if diff == {"get"}:
                     ga, gb = a.get("get", "").split(","), b.get("get", "").split(",")
@@ -169,7 +181,7 @@ def main(argv):
         seen[key] = seen.get(key, 0) + 1
         if seen[key] == 1 and len(seen) <= 4:
             r["kind"] = "the hash differs from the insertion-ordered map after this history (fields: %s)" % ",".join(r["differing_fields"])
-            r["replay"] = "bin/check C14 --replay <this file>; history syntax: mode(A=builtins applied,S=script) universe s<key index>=<value> d<key index>; key i is the i-th token of universe_header"
+            r["replay"] = "bin/check C14 --replay <this file>; history syntax: mode(A=builtins applied,S=script,O=applied with a fresh key object per call) universe s<key index>[w]=<value> d<key index>[w] (w: the key is passed as the one-element array [k]); key i is the i-th token of universe_header"
             r["total_failing_cases"] = len(prop_fail)
             c.violation(r)
     if not prop_fail:
